@@ -347,11 +347,13 @@ def _parse_einsum_string(einsum_str: str) -> dict:
     input_matches = re.findall(tensor_pattern, rhs)
     if not input_matches:
         raise ValueError(f"No input tensors: {original}, {rhs}")
-    leftover = re.sub(tensor_pattern, "", rhs).replace("*", "")
-    if leftover:
+    # Whatever is left between the accesses may only be operators ('*', '+', ...): a
+    # name or a bracket there is an access that did not parse
+    leftover = re.sub(tensor_pattern, "", rhs)
+    if re.search(r"[\w\[\]]", leftover):
         raise ValueError(
             f"Invalid einsum format: {original}. The right-hand side must be tensor "
-            f"accesses of the form Name[...] separated by '*'; could not parse "
+            f"accesses of the form Name[...] joined by operators; could not parse "
             f"{leftover!r}."
         )
 
